@@ -48,9 +48,16 @@ fn near_valid_xz(t: &mut Tape) -> Vec<u8> {
                         4 => b.filters = vec![(0x21, vec![22]), (0x21, vec![22])],
                         5 => b.flags_or = t.byte() & 0x3F,
                         6 => {
-                            // filter with a huge declared property size
-                            b.filters = vec![(0x21, vec![])];
-                            b.extra_pad4 = 2;
+                            // the filter's "size of properties" says more (or less) than the
+                            // header holds: a few bytes more than are left, up to the header
+                            // size and beyond, or a huge value
+                            b.ov_props_size = Some(match t.below(4) {
+                                0 => ext,
+                                1 => t.range(2, 12),
+                                2 => 4 * (t.below(8) + 2) + t.below(9),
+                                _ => 0,
+                            });
+                            b.extra_pad4 = [0u32, 0, 1, 2, 3, 8][t.below(6) as usize];
                         }
                         _ => b.extra_pad4 = t.below(256) as u32,
                     }
